@@ -199,7 +199,7 @@ func guard(f func() string) (res string) {
 	select {
 	case r := <-done:
 		return r
-	case <-time.After(120 * time.Second):
+	case <-time.After(20 * time.Second):
 		return "hang"
 	}
 }
